@@ -728,7 +728,13 @@ fn collect_free_variables(expr: &SpannedExpr, vars: &mut Vec<String>, bound: &mu
                     RecordKey::Dynamic(expr) | RecordKey::Spread(expr) => {
                         collect_free_variables(expr, vars, bound);
                     }
-                    _ => {}
+                    // `{name}` reads the variable `name`
+                    RecordKey::Shorthand(name) => {
+                        if !bound.contains(name) {
+                            vars.push(name.clone());
+                        }
+                    }
+                    RecordKey::Static(_) => {}
                 }
                 if !matches!(entry.key, RecordKey::Shorthand(_) | RecordKey::Spread(_)) {
                     collect_free_variables(&entry.value, vars, bound);
